@@ -614,7 +614,8 @@ func (st *Stack) compactRangeStats(first, last int, expiration *LogExpirationCon
 }
 
 func (st *Stack) compactRange(first, last int, expiration *LogExpirationConfig) (bool, error) {
-	if first >= last && expiration == nil {
+	if first > last || (first == last && expiration == nil) {
+		// Nothing to merge (an empty stack has no range at all).
 		return true, nil
 	}
 	st.Stats.Attempts++
